@@ -40,10 +40,18 @@ def exact_rot(q0, r, k):
     return core.g_rot(p)
 
 
-def check_given(t, q0, r, n, freq, in_deg, norm_mag, cls):
+GREFS = [np.array([0.0, 0.0, 9.80665]), np.array([0.03, -0.02, 9.81]), np.array([1.5, 0.5, 9.81]), np.array([0.0, 9.81, 0.0])]
+MREFS = [np.array([21000.0, 1400.0, 43500.0]), np.array([0.0, 0.0, 50000.0]), np.array([-15000.0, 30000.0, -20000.0]), np.array([21000.0, 1400.0, 43500.0])]
+
+
+def check_given(t, q0, r, n, freq, in_deg, norm_mag, cls, ref=None):
+    # the documented reference options: the default-like vertical gravity, and references with horizontal components
+    global GREF, MREF
+    ri = (sum(abs(int(c)) for c in q0) + sum(abs(int(c)) for c in r) + n) % len(GREFS) if ref is None else ref
+    GREF, MREF = GREFS[ri], MREFS[ri]
     Q = trajectory(q0, r, n)
-    case = {"q0": q0, "r": r, "n": n, "freq": freq, "in_degrees": in_deg, "normalized_mag": norm_mag}
-    t.keys.add((cls, tuple(q0), tuple(r), n, freq, in_deg, norm_mag))
+    case = {"q0": q0, "r": r, "n": n, "freq": freq, "in_degrees": in_deg, "normalized_mag": norm_mag, "gravity_ref": GREF, "magnetic_ref": MREF}
+    t.keys.add((cls, tuple(q0), tuple(r), n, freq, in_deg, norm_mag, ri))
     kw = dict(gyr_noise=0.0, acc_noise=0.0, mag_noise=0.0, in_degrees=in_deg, normalized_mag=norm_mag,
               reference_gravitational_vector=GREF.copy(), reference_magnetic_vector=MREF.copy())
     t.calls += 1
@@ -191,11 +199,13 @@ def check_random_options(t, n, seed_tag):
             t.fail("C20|Sensors(num_samples=, %s)|gyroscopes-do-not-integrate-back-to-trajectory" % tag, {"n": n, "options": kw, "err": worst, "bound": bound})
 
 
-def replay_cases(recs):
+def replay_cases(recs, deep=False):
     t = Tally()
     for i, r in enumerate(recs):
-        for n, freq in ((10, 100.0), (50, 50.0)):
-            check_given(t, r["q0"], r["r"], n, freq, bool(i % 2), bool((i // 2) % 2), "grid")
+        for n, freq in ((10, 100.0), (50, 50.0)) + (((23, 400.0), (120, 10.0)) if deep else ()):
+            for ref in (range(len(GREFS)) if deep else (None,)):
+                for opts in (range(4) if deep else (i,)):
+                    check_given(t, r["q0"], r["r"], n, freq, bool(opts % 2), bool((opts // 2) % 2), "grid", ref=ref)
         if len(t.samples) < 2:
             t.samples.append(r)
     return t
@@ -219,15 +229,19 @@ def realistic(seed):
 def run(chk):
     chk.rule = ("(q0, r) trajectories emitted by TLC x lengths {10, 50} x sampling rates x in_degrees x normalized_mag, realistic small-step "
                 "trajectories (lengths to 200, rates 10..400 Hz) via the bigint mirror, and the random-trajectory route at lengths 10/50/200 with "
-                "zero, default and explicit noise levels; distinct = distinct (trajectory, options); none trivial")
+                "zero, default and explicit noise levels and the route's options (degrees, pinned yaw, span, rate, normalised magnetometer); gravity / "
+                "magnetic references with horizontal components; thorough = every trajectory x 4 reference sets x 4 option pairs x 4 (length, rate) "
+                "and 12 repetitions of the random part; distinct = distinct (trajectory, options); none trivial")
     chk.assume("zero noise requested => samples equal R_k^T ref within 1e-12 relative; bias-corrected gyroscopes equal the generator's first-order "
                "rate within 1e-9; integration back within N theta^3/12; noise standard deviations within 10 % of the reported attribute")
     res = tlc.run_tlc("MC_SyntheticSensors", core.spec_cfg("MC_SyntheticSensors"), timeout=600)
     chk.add_tlc("SyntheticSensors[starts x steps x references]", res)
     if res.violated:
         chk.fail("C20|spec|%s" % res.violated, {"tlc": res.output[-2000:]})
-    core.merge(chk, [replay_cases(sorted(res.out_records, key=lambda r: (r["q0"], r["r"])))])
-    core.merge(chk, [realistic(chk.seed)])
+    deep = chk.tier != "quick"
+    core.merge(chk, [replay_cases(sorted(res.out_records, key=lambda r: (r["q0"], r["r"])), deep=deep)])
+    # the random route draws from the module's own generator: every repetition is another set of trajectories
+    core.merge(chk, [realistic(chk.seed + k) for k in range(12 if deep else 1)])
 
 
 def replay(chk, body):
